@@ -184,6 +184,14 @@ class C13(Check):
             if interval == 0 or min(interval, slow) <= 0.1:
                 horizon = min(horizon, 20.0)
             mods.append(spec)
+        if nmod > 1 and rng.random() < 0.1:
+            # focus: the device of one module does not answer - all its slowly polled parameters time out (a reply
+            # time-out each) - while other modules share the poll thread
+            spec = mods[0]
+            spec['polled'] = ['p0', 'p1', 'p2']
+            spec['slow'] = rng.choice([0.5, 1.0, 4.0])
+            for pn in spec['polled']:
+                spec['scripts']['read_' + pn] = [[rng.choice([0.2, 0.3]), 'comfail']]
         ops = []
         t = 0.0
         for _ in range(rng.randrange(0, 8)):
